@@ -363,7 +363,7 @@ pub extern "C" fn tsrun_get(
         return TsRunValueResult::err(ctx, "Value is not an object".to_string());
     };
 
-    let prop_key = PropertyKey::String(JsString::from(key_str));
+    let prop_key = PropertyKey::from_name(key_str);
     let value = obj_ref
         .borrow()
         .get_property(&prop_key)
@@ -409,7 +409,7 @@ pub extern "C" fn tsrun_set(
         return TsRunResult::err(ctx, "Value is not an object".to_string());
     };
 
-    let prop_key = PropertyKey::String(JsString::from(key_str));
+    let prop_key = PropertyKey::from_name(key_str);
     obj_ref
         .borrow_mut()
         .set_property(prop_key, val_ref.value().clone());
@@ -443,7 +443,7 @@ pub extern "C" fn tsrun_has(
         return false;
     };
 
-    let prop_key = PropertyKey::String(JsString::from(key_str));
+    let prop_key = PropertyKey::from_name(key_str);
     obj_ref.borrow().get_property(&prop_key).is_some()
 }
 
@@ -478,7 +478,7 @@ pub extern "C" fn tsrun_delete(
         return TsRunResult::err(ctx, "Value is not an object".to_string());
     };
 
-    let prop_key = PropertyKey::String(JsString::from(key_str));
+    let prop_key = PropertyKey::from_name(key_str);
     obj_ref.borrow_mut().properties.remove(&prop_key);
 
     TsRunResult::success()
@@ -916,7 +916,7 @@ pub extern "C" fn tsrun_call_method(
     };
 
     // Look up method
-    let prop_key = PropertyKey::String(JsString::from(method_str));
+    let prop_key = PropertyKey::from_name(method_str);
     let method_val = obj_ref
         .borrow()
         .get_property(&prop_key)
@@ -977,7 +977,7 @@ pub extern "C" fn tsrun_get_global(
         None => return TsRunValueResult::err(ctx, "Invalid or NULL name".to_string()),
     };
 
-    let prop_key = PropertyKey::String(JsString::from(name_str));
+    let prop_key = PropertyKey::from_name(name_str);
     let value = ctx
         .interp
         .global
@@ -1015,7 +1015,7 @@ pub extern "C" fn tsrun_set_global(
         None => return TsRunResult::err(ctx, "NULL value".to_string()),
     };
 
-    let prop_key = PropertyKey::String(JsString::from(name_str));
+    let prop_key = PropertyKey::from_name(name_str);
     ctx.interp
         .global
         .borrow_mut()
